@@ -109,6 +109,7 @@ type Interp struct {
 	inInit   bool
 	unwindDefault int
 	opt         *PathOpts
+	sleep       map[*GoR]bool
 	enumQueries int
 	curModel    Model
 	pcSet       map[int]bool
